@@ -171,6 +171,7 @@ func (e *Engine) expandQuantifiers(fs []*Term, goalFs []*Term) []*Term {
 		ground = g2
 		pol := polarities(polFs, e.quantVars)
 		var newAx []*Term
+		var groundAll []*Term
 		for _, qi := range qs {
 			pp := pol[qi.p.name]
 			needWitness := pp&polNeg != 0
@@ -204,7 +205,18 @@ func (e *Engine) expandQuantifiers(fs []*Term, goalFs []*Term) []*Term {
 					cands = append(cands, []*Term{t})
 				}
 			} else {
-				cands = e.matchTuples(qi, ground)
+				// map quantifiers: lookups are few, so keys read anywhere on the path are candidates
+				if groundAll == nil {
+					seenA := map[int]bool{}
+					for _, f := range all {
+						Walk(f, seenA, func(t *Term) {
+							if t.op == "uf" && !mentionsAny(t, boundNames) {
+								groundAll = append(groundAll, t)
+							}
+						})
+					}
+				}
+				cands = e.matchTuples(qi, groundAll)
 			}
 			for _, ts := range cands {
 				tk := tupleKey(ts)
